@@ -18,9 +18,10 @@ class LoopNotUnrollable(Exception):
 
 
 class State(object):
-    __slots__ = ("heap", "pc", "log", "approx", "ctor_pc", "all_ctor_pcs")
+    __slots__ = ("heap", "pc", "log", "approx", "ctor_pc", "all_ctor_pcs", "pmut")
 
     def __init__(self):
+        self.pmut = []     # [(value of a parameter before, after)]: in-place updates of caller-owned sequences
         self.ctor_pc = []
         self.all_ctor_pcs = []
         self.heap = {}     # oid -> {field: term}
@@ -34,6 +35,7 @@ class State(object):
         n.pc = list(self.pc)
         n.log = list(self.log)
         n.approx = list(self.approx)
+        n.pmut = list(self.pmut)
         n.ctor_pc = self.ctor_pc
         n.all_ctor_pcs = self.all_ctor_pcs
         return n
@@ -150,6 +152,23 @@ class Policy(object):
             if branch or nst >= 6 or self.returns_boolean(node):
                 return "leaf"
         return "inline"
+
+    def is_generator(self, f):
+        k = ("gen", f._key)
+        if k not in self._cache:
+            r = False
+            if not isinstance(f.node, ast.Lambda):
+                stack = list(f.node.body)
+                while stack:
+                    x = stack.pop()
+                    if isinstance(x, (ast.Yield, ast.YieldFrom)):
+                        r = True
+                        break
+                    if isinstance(x, (ast.FunctionDef, ast.Lambda, ast.ClassDef)):
+                        continue
+                    stack.extend(ast.iter_child_nodes(x))
+            self._cache[k] = r
+        return self._cache[k]
 
     @staticmethod
     def returns_boolean(node):
@@ -943,6 +962,35 @@ class Ev(object):
             out.append((s1, v))
         return out
 
+    # generators: the body is evaluated eagerly and the yielded values collected per path (the
+    # laziness of a generator only moves effects/exceptions to the point of consumption)
+    def _yield(self, env, v, st, site):
+        if "<yields>" not in env["locals"]:
+            raise AnalysisError("%s:%d: yield outside a generator function" % (site[0], site[1]))
+        env["locals"]["<yields>"] = env["locals"]["<yields>"] + (v,)
+
+    def e_Yield(self, n, env, st):
+        site = self.site(n, env)
+        if n.value is None:
+            self._yield(env, NONE, st, site)
+            return [(st, NONE)]
+        outs = self.expr(n.value, env, st)
+        if len(outs) > 1:
+            raise AnalysisError("%s:%d: yield of an expression that forks" % (site[0], site[1]))
+        for s1, v in outs:
+            self._yield(env, v, s1, site)
+        return [(s1, NONE) for s1, _ in outs]
+
+    def e_YieldFrom(self, n, env, st):
+        site = self.site(n, env)
+        outs = self.expr(n.value, env, st)
+        if len(outs) > 1 or not all(isinstance(v, TupleV) for _, v in outs):
+            raise AnalysisError("%s:%d: yield from something that is not a sequence of known length" % (site[0], site[1]))
+        for s1, v in outs:
+            for item in v.items:
+                self._yield(env, item, s1, site)
+        return [(s1, NONE) for s1, _ in outs]
+
     def e_Starred(self, n, env, st):
         return [(s, App("star", [v])) for s, v in self.expr(n.value, env, st)]
 
@@ -978,7 +1026,17 @@ class Ev(object):
                         s3.approx.append((site, "star-args"))
                         res.append((s3, App("call*", (f,) + tuple(args) + tuple(kwv))))
                         continue
-                    for o in self.call(f, args, tuple(kws), s3, site):
+                    mark = len(s3.pmut)
+                    outs = self.call(f, args, tuple(kws), s3, site)
+                    upd = {tuple((a._key, b._key) for a, b in o.state.pmut[mark:]) for o in outs if o.kind == "return"}
+                    if len(upd) > 1:
+                        raise AnalysisError("%s:%d: a callee updates its argument in place differently on different paths" % (site[0], site[1]))
+                    for o in outs[:1] if upd and upd != {()} else ():
+                        for (old, new) in o.state.pmut[mark:]:
+                            for a in list(n.args) + [k.value for k in n.keywords]:
+                                if isinstance(a, ast.Name) and a.id in env["locals"] and env["locals"][a.id] == old:
+                                    env["locals"][a.id] = new
+                    for o in outs:
                         res.append((o.state, o.value))
         return res
 
@@ -1268,6 +1326,10 @@ class Ev(object):
                "params": tuple(order)}
         if order and f.owner is not None:
             env["self_value"] = loc[order[0]]
+        is_gen = self.policy.is_generator(f)
+        if is_gen:
+            loc["<yields>"] = ()
+            st.approx.append((site, "generator %s evaluated eagerly" % f.qual))
         self.depth += 1
         self.active.append(f.qual)
         try:
@@ -1277,7 +1339,9 @@ class Ev(object):
                 paths = self.block(f.node.body, env, st)
                 out = []
                 for p in paths:
-                    if p.kind == "return":
+                    if is_gen and p.kind == "normal":
+                        out.append(Outcome("return", TupleV(list(p.val["locals"].get("<yields>", ())), "tuple"), p.st))
+                    elif p.kind == "return":      # (s_Return of a generator returns what was yielded so far)
                         out.append(Outcome("return", p.val, p.st))
                     elif p.kind == "normal":
                         out.append(Outcome("return", NONE, p.st))
@@ -1335,6 +1399,9 @@ class Ev(object):
 
     def s_Return(self, n, env, st):
         site = self.site(n, env)
+        if "<yields>" in env["locals"]:       # generator: `return` ends the iteration; its value is not observable by iteration
+            st.log.append(("return", site))
+            return [Path(st, "return", TupleV(list(env["locals"]["<yields>"]), "tuple"))]
         if n.value is None:
             st.log.append(("return", site))
             return [Path(st, "return", NONE)]
@@ -1565,6 +1632,19 @@ class Ev(object):
                 env["locals"][t.value.id] = mk_app("setitem", (base, k, v))
                 return True
             st.log.append(("sub-store", base, k, v, site, _base_name(t.value)))
+            if isinstance(t.value, ast.Name) and t.value.id in env["locals"] and t.value.id in env.get("params", ()) \
+                    and not env.get("toplevel") and isinstance(base, (App, TupleV)):
+                # in-place update of a sequence the caller passed in: the callee sees the new value from here
+                # on, and so does the caller (written back to the argument's name when the call returns)
+                if isinstance(base, TupleV) and base.kind == "list" and isinstance(k, Const) and isinstance(k.v, int) \
+                        and -len(base.items) <= k.v < len(base.items):
+                    items = list(base.items)
+                    items[k.v] = v
+                    new = TupleV(items, "list")
+                else:
+                    new = mk_app("setitem", (base, k, v))
+                env["locals"][t.value.id] = new
+                st.pmut.append((base, new))
             return True
         if isinstance(t, ast.Starred):
             raise AnalysisError("%s:%d: starred assignment target" % (env["mod"].relpath, t.lineno))
